@@ -119,3 +119,47 @@ def rerun(w):
     if r:
         print('  %s' % r['reason'])
     return bool(r)
+
+
+# thorough tier: property-level twins run as an exploration on top of the proofs (never counted as proved)
+PROP_TWINS = {
+    'C02': ['select_all'],
+    'C03': ['ef_big'],
+    'C04': ['ef_dict', 'ef_big'],
+    'C08': ['vfilter'],
+}
+
+
+def cases_for_units(unit_names):
+    out = []
+    for un in unit_names:
+        for ure, _fre, cs in CASES:
+            if re.fullmatch(ure, un):
+                for c in cs:
+                    if c not in out:
+                        out.append(c)
+    return out
+
+
+def sweep(pid, unit_names, seed, budget=6000, per_case_timeout=900):
+    """run every twin mapped to the property's units (and the property-level twins) with a large budget.
+    returns (runs, failures): runs = [{'case', 'trials', 'seconds'}], failures = [witness dicts]"""
+    cases = cases_for_units(unit_names)
+    for c in PROP_TWINS.get(pid, []):
+        if c not in cases:
+            cases.append(c)
+    runs, fails = [], []
+    if not cases:
+        return runs, fails
+    binpath = build()
+    for c in cases:
+        t = time.time()
+        rc, out, err = _run(binpath, ['search', c, str(seed), str(budget)], per_case_timeout)
+        m = re.search(r'DONE trials=(\d+) fails=(\d+)', out)
+        w = _parse(rc, out, err)
+        runs.append({'case': c, 'trials': int(m.group(1)) if m else None, 'seconds': round(time.time() - t, 1),
+                     'timed_out': rc == -99})
+        if w:
+            w['cmd'] = 'sux-witness one %s %s' % (w['case'], w['input'])
+            fails.append(w)
+    return runs, fails
